@@ -207,7 +207,28 @@ def build_units(tier: str) -> list[Unit]:
     for e in (False, True):
         for p in (False, True):
             units.append(Unit(f"replay/ecu={int(e)},properties={int(p)}", replay_harness(e, p)))
+    # L2 for the reply side: what insert_scan_result stores for a reply is the complete hex form
+    # of its bytes whenever there is a reply - also when the client took no receive time because
+    # the reply did not match (the row-construction harness is C11's; only its reply-column
+    # obligations are kept here)
+    from . import c11
+    S = c11.service_module()
+    for cname in ("ReadDataByIdentifierResponse", "NegativeResponse"):
+        cls = getattr(S, cname)
+        for alts in resp_alternatives(cls):
+            if "none" in alts.values():
+                continue
+            tag = ",".join(f"{k}={v}" for k, v in alts.items())
+            units.append(Unit(f"store/reply/{cname}/{tag}",
+                              c11.insert_harness("response", cname, cls, alts),
+                              setup=_store_setup))
     return units
+
+
+def _store_setup(ex: Explorer) -> None:
+    from . import c11
+    c11.install_db(ex)
+    ex.obligation_filter = lambda name: name.startswith(("I-response-column", "I-row-has"))  # type: ignore[attr-defined]
 
 
 def native_replay(unit: str, obligation: str, model: dict) -> tuple[bool, str]:
@@ -216,6 +237,12 @@ def native_replay(unit: str, obligation: str, model: dict) -> tuple[bool, str]:
     from gallia.services.uds import ecu as E
     from gallia.services.uds import server as SV
     from gallia.services.uds.core import service as S
+
+    if unit.startswith("store/"):
+        from . import c11
+        return c11.native_replay(unit, obligation, model)
+    if "ReadDataByIdentifierResponse" not in unit:
+        return False, "no native scenario for this obligation"
 
     class Srv(SV.UDSServer):
         @property
